@@ -910,4 +910,23 @@ theorem move_table_step (n : Nat) (A a : List Nat) (v : Nat) (G : List (GNode MF
     · rintro ⟨k, hklt, h⟩
       exact ⟨k, List.mem_range'_1.mpr ⟨Nat.zero_le _, by omega⟩, (hkey k hklt _ w).mpr ((hR k).mp h)⟩
 
+/-- **`move_table_correct_partial`** — the same statement for the model the driver runs (generic GVE loop driven by the MOVE
+    callbacks, `gRemoveVar mcb`): ONE `removeFactor(v)` of the table-level MultiObjectiveVariableElimination as written
+    refines one step of the semantic elimination `eliminateS` (compare `mem_eliminateS`), on fully specified tables.
+
+    FULL STATEMENT (not yet closed): for fully specified well-formed rule sets,
+      `w ∈ den (moveRun A rules) ↔ ∃ a, Valid A a ∧ w = value vector of a`.
+    It follows from this step by the induction of `mem_elimAllS`/`tveLoop_spec` once three bookkeeping facts are proved:
+    `FullG`, `GoodG`, `GKeysG` are preserved by `pRemoveVar` (the new node receives a rule for every joint value), the
+    graph built by `mInit` denotes the rule set (analogue of `tInit_represents`), and `den (mFinalCross finals)` is
+    `sums (finals.map den)` for a non-empty list of final factors (`mem_den_foldl_cross`).  `moveRun_pure` already
+    removes the callback state from the statement. -/
+theorem move_table_correct_partial (n : Nat) (A a : List Nat) (v : Nat) (st : GState MFactor MGlob)
+    (ha : Valid A a) (hv : v < A.length) (hpos : 0 < A.getD v 0)
+    (hG : GoodG n st.graph) (hk : GKeysG A.length st.graph) (hfull : FullG A st.graph) (w : Vec) :
+    w ∈ sums (Mean A a ((gRemoveVar mcb A A.length v st).graph, (gRemoveVar mcb A A.length v st).finals))
+      ↔ ∃ k, k < A.getD v 0 ∧ w ∈ sums (Mean A (setAt a v k) (st.graph, st.finals)) := by
+  rw [gRemoveVar_pure]
+  exact move_table_step n A a v st.graph st.finals ha hv hpos hG hk hfull w
+
 end AITB.VE
